@@ -42,6 +42,14 @@ def gen(args):
         which = t % 4
         scale = [1.0, 1.0, 1e-5, 3.7e-3, 0.25, 1e3, 7e-7][int(rng.integers(7))]
         N_s, N_f = n_s, m_s
+        if which in (0, 1) and rng.random() < 0.12:
+            # far-apart groups whose squared distances (about 1e8) differ by single units: well resolved in double precision,
+            # equal after a round trip through single precision
+            L = int(rng.integers(9000, 11000))
+            X = X % 3
+            far = rng.random(n_s) < 0.5
+            X[far, 0] += L
+            scale = 1.0
         if which in (0, 1) and rng.random() < 0.15 and scale in (1.0, 0.25):
             X = X + int(rng.integers(8000, 12000))       # uncentred data: squared norms ~1e8, distances of order 1..100 (exact in float64)
         if which in (0, 1):
